@@ -42,6 +42,18 @@ class C08(Prop):
         for _ in range(n // 2):
             lines.append("drvn %s %s" % (random_script(rng, rng.randrange(0, 20)), gen.hexs(gen.grammar_stream(rng, valid_utf8=rng.randrange(2) == 0))))
         yield "never-protocol", lines
+        # the real stdout / stderr, locked between two writes (child process, output captured from a pipe)
+        lines = []
+        for i in range(200 if tier == "thorough" else 60):
+            data = gen.grammar_stream(rng, pieces=rng.choice([2, 3, 5]))
+            if not data:
+                continue
+            cut = rng.randrange(0, len(data) + 1)
+            if i % 3 == 0:
+                data = list(b"<<a\x1b[1mb\x1b[0mc>>")
+                cut = rng.choice([5, 6, 7])
+            lines.append("lk8 %s %s %s %s" % (rng.choice(["never", "strip", "ansi", "always"]), rng.choice(["out", "err"]), gen.hexs(data[:cut]), gen.hexs(data[cut:])))
+        yield "locked-std-streams", lines
 
     def observe(self, ctx, name, lines, results):
         if name == "never-protocol":
@@ -86,7 +98,7 @@ class C08(Prop):
 
     def nontrivial(self, line, impl):
         p = line.split(" ")
-        return "1b" in (p[4] if p[0] == "strm" else p[2])
+        return "1b" in (p[4] if p[0] == "strm" else (p[3] + p[4]) if p[0] == "lk8" else p[2])
 
     def shrink_fields(self, line):
         return []
